@@ -43,7 +43,7 @@ static Built build(Rng& r, GenCfg cfg, bool vec_image, bool mat_image = false) {
   b.args = new Array<const ExprSymbol>(ns); b.nvar = 0;
   for (int i = 0; i < ns; i++) {
     Dim d = Dim::scalar();
-    if (cfg.allow_vec) switch (r.below(6)) { case 0: d = Dim::col_vec(r.range(2, 3)); break; case 1: d = Dim::row_vec(2); break; case 2: d = Dim::matrix(2, r.range(2, 3)); break; default: break; }
+    if (cfg.allow_vec) switch (r.below(6)) { case 0: d = Dim::col_vec(r.range(2, 3)); break; case 1: d = Dim::row_vec(2); break; case 2: d = Dim::matrix(r.range(2, 3), r.range(2, 3)); break; default: break; }
     const ExprSymbol& s = ExprSymbol::new_(("x" + to_string(i)).c_str(), d);
     b.args->set_ref(i, s); g.syms.push_back(&s); b.nvar += d.size();
   }
@@ -65,7 +65,7 @@ static Built build(Rng& r, GenCfg cfg, bool vec_image, bool mat_image = false) {
 // a function with MUTABLE constants (ExprConstant::new_mutable: the value lives in a Domain owned by the caller and may change
 // after the function, its simplified form or its derivative have been built).  The constants are set to `v0` (often 0 or 1,
 // the values that rewriting rules treat specially) while the library works, then changed: what was derived must follow.
-struct Mut { Domain* t; Domain* tv; Mut() : t(0), tv(0) {} };
+struct Mut { Domain* t; Domain* t2; Domain* tv; Mut() : t(0), t2(0), tv(0) {} };
 static Built build_mutable(Rng& r, Mut& mu) {
   Built b; GenCfg cfg; cfg.differentiable = true; cfg.allow_vec = false; cfg.allow_apply = false; cfg.max_depth = r.range(1, 2);
   ExprGen g(r, cfg);
@@ -78,13 +78,18 @@ static Built build_mutable(Rng& r, Mut& mu) {
   if (g.syms.empty()) { const ExprSymbol& s = ExprSymbol::new_("xs", Dim::scalar()); Array<const ExprSymbol>* a2 = new Array<const ExprSymbol>(ns + 1); for (int i = 0; i < ns; i++) a2->set_ref(i, (*b.args)[i]); a2->set_ref(ns, s); b.args = a2; g.syms.push_back(&s); b.nvar++; }
   static const double V0[] = {0.0, 0.0, 1.0, -1.0, 2.0, 0.5};
   mu.t = new Domain(Dim::scalar()); mu.t->i() = Interval(V0[r.below(6)]);
+  mu.t2 = new Domain(Dim::scalar()); mu.t2->i() = r.coin(60) ? mu.t->i() : Interval(V0[r.below(6)]);   // (a DISTINCT constant that often holds the same value)
   mu.tv = new Domain(Dim::col_vec(2)); mu.tv->v()[0] = Interval(V0[r.below(6)]); mu.tv->v()[1] = Interval(V0[r.below(6)]);
   const ExprNode& t = ExprConstant::new_mutable(*mu.t);
   const ExprNode& tv = ExprConstant::new_mutable(*mu.tv);
+  const ExprNode& t2 = ExprConstant::new_mutable(*mu.t2);
   int n = r.range(2, 3);
   auto colvec = [&](int k) -> const ExprNode& { Array<const ExprNode> c(k); for (int i = 0; i < k; i++) c.set_ref(i, g.gen(1, 1, cfg.max_depth)); return ExprVector::new_col(c); };
   const ExprNode* e;
-  switch (r.below(9)) {
+  switch (r.below(12)) {
+    case 9: { const ExprNode& q = g.gen(1, 1, 1); e = &(t * q - t2 * q + g.gen(1, 1, 1)); b.rows = b.cols = 1; break; }      // like monomials with two different mutable coefficients
+    case 10: { const ExprSymbol& xs = *g.syms[r.below(g.syms.size())]; e = &(t * xs + t2 * xs + xs * t2 - t * sqr(xs)); b.rows = b.cols = 1; break; }
+    case 11: { const ExprNode& q = g.gen(1, 1, 1); e = &((t - t2) * q + (t2 * t) * g.gen(1, 1, 1)); b.rows = b.cols = 1; break; }
     case 0: e = &(t * colvec(n) + colvec(n)); b.rows = n; b.cols = 1; break;
     case 1: e = &(t * g.gen(1, 1, 2) + g.gen(1, 1, 2)); b.rows = b.cols = 1; break;
     case 2: e = &(g.gen(1, 1, 2) * t + sqr(t) * g.gen(1, 1, 1)); b.rows = b.cols = 1; break;
@@ -102,7 +107,57 @@ static Built build_mutable(Rng& r, Mut& mu) {
 static void change(Rng& r, Mut& mu) {
   static const double V1[] = {3.0, -2.0, 0.5, 1.5, 0.0, 1.0, -0.25};
   mu.t->i() = Interval(V1[r.below(4)]);            // (never 0 or 1 after the change)
+  do { mu.t2->i() = Interval(V1[r.below(4)]); } while (mu.t2->i() == mu.t->i());   // (and the two scalars differ)
   mu.tv->v()[0] = Interval(V1[r.below(7)]); mu.tv->v()[1] = Interval(V1[r.below(4)]);
+}
+
+
+// scalar * NON-SQUARE matrix products with a variable scalar (reverse rules mul_SM / mul_SV of the gradient, differentiation of
+// scalar-matrix products): f = w'((s A) x), (s A) x, ((s+x_0) A) x ...
+static Built build_sm(Rng& r) {
+  Built b; int p = r.range(2, 3), q = r.range(2, 3); if (p == q) { if (r.coin()) p = 5 - q; else q = 5 - p; if (p == q) q = p == 2 ? 3 : 2; }
+  b.args = new Array<const ExprSymbol>(3);
+  const ExprSymbol& sc = ExprSymbol::new_("x0", Dim::scalar()); const ExprSymbol& A = ExprSymbol::new_("x1", Dim::matrix(p, q)); const ExprSymbol& x = ExprSymbol::new_("x2", Dim::col_vec(q));
+  b.args->set_ref(0, sc); b.args->set_ref(1, A); b.args->set_ref(2, x); b.nvar = 1 + p * q + q;
+  Vector wv(p); for (int i = 0; i < p; i++) wv[i] = (double)r.range(-3, 3); if (wv[0] == 0) wv[0] = 1;
+  const ExprNode& w = ExprConstant::new_vector(wv, true);      // row vector
+  const ExprNode* s1;
+  switch (r.below(4)) { case 0: s1 = &sc; break; case 1: s1 = &(sc + x[0]); break; case 2: s1 = &sqr(sc); break; default: s1 = &(sc * x[q - 1] - 1.0); }
+  const ExprNode& sa = r.coin(80) ? (const ExprNode&)(*s1 * A) : (const ExprNode&)(*s1 * (A + A));
+  const ExprNode* e;
+  switch (r.below(4)) {
+    case 0: e = &(w * (sa * x)); b.rows = b.cols = 1; break;
+    case 1: e = &(sa * x); b.rows = p; b.cols = 1; break;
+    case 2: e = &(w * (sa * x) + sqr(sc)); b.rows = b.cols = 1; break;
+    default: e = &((w * sa) * x); b.rows = b.cols = 1; break;
+  }
+  b.dag = dump_expr(*e, *b.args);
+  b.f = new Function(*b.args, *e, "f");
+  return b;
+}
+
+
+// products of DIFFERENT powers of the same dot product of vector symbols (u'v and v'u are the same term of the polynomial normal form)
+static Built build_dotpow(Rng& r) {
+  Built b; int n = r.range(2, 3); int ns = r.range(2, 3);
+  b.args = new Array<const ExprSymbol>(ns); b.nvar = ns * n;
+  for (int i = 0; i < ns; i++) b.args->set_ref(i, ExprSymbol::new_(("x" + to_string(i)).c_str(), Dim::col_vec(n)));
+  auto dot = [&]() -> const ExprNode& { int i = r.below(ns), j = r.below(ns); if (ns > 1 && i == j && r.coin(70)) j = (i + 1) % ns; return transpose((*b.args)[i]) * (*b.args)[j]; };
+  auto dotij = [&](int i, int j) -> const ExprNode& { return transpose((*b.args)[i]) * (*b.args)[j]; };
+  auto pw = [&](const ExprNode& d, int k) -> const ExprNode& { if (k == 1) return d; if (k == 2 && r.coin()) return sqr(d); return pow(d, k); };
+  int i = r.below(ns), j = (i + 1 + r.below(ns - 1)) % ns;
+  const ExprNode* e;
+  switch (r.below(5)) {
+    case 0: e = &(pw(dotij(i, j), r.range(1, 3)) * pw(dotij(j, i), r.range(1, 3))); break;
+    case 1: e = &(pw(dotij(i, j), r.range(1, 2)) * pw(dotij(j, i), r.range(2, 3)) - pw(dot(), r.range(1, 2))); break;
+    case 2: e = &(dotij(i, j) * (dotij(j, i) * dotij(i, j)) + dot()); break;
+    case 3: e = &(pw(dotij(i, j), 2) * dotij(j, i) * pw(dot(), r.range(1, 2))); break;
+    default: e = &((dotij(i, j) + 1.0) * pw(dotij(j, i), r.range(1, 3))); break;
+  }
+  b.rows = b.cols = 1;
+  b.dag = dump_expr(*e, *b.args);
+  b.f = new Function(*b.args, *e, "f");
+  return b;
 }
 
 // a function over vector / matrix symbols built by the symbolic linear algebra generator
@@ -132,7 +187,7 @@ int main(int argc, char** argv) {
   // the symbolic workloads run each iteration in a forked child with a CPU-time limit: the polynomial expansion of the
   // simplification levels 2-3 is documented to blow up (time or memory) on some expressions; such a case is reported
   // as a resource limit (no claim), a crash of the library as a failure
-  bool forked = (wl == "c11" || wl == "c12");
+  bool forked = (wl == "c08" || wl == "c11" || wl == "c12");   // one child per iteration: a crash of the library is one line, the other iterations go on
   for (long it = 0; it < n; it++) {
     cur = "-";
     Rng r(r0.next() ^ (uint64_t)it * 0x9E3779B97F4A7C15ull);     // one stream per iteration (the child's draws are not seen by the parent)
@@ -156,7 +211,7 @@ int main(int argc, char** argv) {
     try {
       if (wl == "c08") {
         GenCfg cfg; cfg.differentiable = r.coin(75); cfg.allow_vec = r.coin(60); cfg.allow_apply = r.coin(40); cfg.max_depth = r.range(1, 4);
-        Built b = r.coin(20) ? build_linalg(r, false) : build(r, cfg, true);
+        Built b = r.coin(8) ? build_sm(r) : (r.coin(20) ? build_linalg(r, false) : build(r, cfg, true));
         if (b.rows > 1 && b.cols > 1) { delete b.f; continue; }   // (matrix-valued images: not in this workload)
         Function& f = *b.f; int m = b.rows * b.cols;
         for (int k = 0; k < 3; k++) {
@@ -231,7 +286,7 @@ int main(int argc, char** argv) {
         if (ddf) { string d2 = dump_fun(*ddf); EMIT("diffnf %s %s %d => 1\n", ddag.c_str(), d2.c_str(), b.nvar); }
       } else if (wl == "c12") {
         GenCfg cfg; cfg.differentiable = true; cfg.allow_vec = r.coin(60); cfg.allow_apply = r.coin(40); cfg.max_depth = r.range(1, 4);
-        Built b = r.coin(30) ? build_linalg(r) : build(r, cfg, true);
+        Built b = r.coin(6) ? build_sm(r) : (r.coin(30) ? build_linalg(r) : build(r, cfg, true));
         if (b.rows > 1 && b.cols > 1) { delete b.f; continue; }   // (differentiation of matrix-valued functions is not supported)
         cur = b.dag;
         if (getenv("VERIF_TRACE")) { fprintf(stderr, "TRACE %s\n", cur.c_str()); fflush(stderr); }
@@ -263,7 +318,7 @@ int main(int argc, char** argv) {
         if (comp) { string d2 = dump_fun(*comp); EMIT("equivcompnf %s %s %d %d => 1\n", fd.c_str(), d2.c_str(), ci, b.nvar); }
       } else if (wl == "c11") {
         GenCfg cfg; cfg.differentiable = r.coin(30); cfg.allow_vec = r.coin(70); cfg.allow_apply = false; cfg.max_depth = r.range(1, 4);
-        Built b = r.coin(30) ? build_linalg(r) : build(r, cfg, true, true);
+        Built b = r.coin(6) ? build_dotpow(r) : (r.coin(30) ? build_linalg(r) : build(r, cfg, true, true));
         Function& f = *b.f;
         cur = b.dag;
         auto trace = [&](const char* what) { if (getenv("VERIF_TRACE")) { fprintf(stderr, "TRACE %s %s\n", what, cur.c_str()); fflush(stderr); } };
